@@ -291,9 +291,48 @@ type e2Freeze struct {
 	hitOne sync.Once
 }
 
+// e2WriteCtl numbers the writes of all three stores of one world (one crash
+// position per write for the C10 state-machine check).
+type e2WriteCtl struct {
+	n  atomic.Int64
+	fz *e2Freeze
+}
+
+// around runs one store write with the crash positions of ctl applied. logOut is
+// called with the outcome that is true of the store (persisted or not).
+func (c *e2WriteCtl) around(ctx context.Context, log *e2Log, what string, h uint64, r uint32, do func() error, logOut func(err error, note string)) error {
+	if c == nil {
+		err := do()
+		logOut(err, "")
+		return err
+	}
+	n := int(c.n.Add(1))
+	fz := c.fz
+	if fz != nil && fz.call == n && !fz.after {
+		log.add(e2Ev{K: e2kFreeze, Sub: what, H: h, R: r, ID: n, Note: "before-persist"})
+		logOut(errFrozen, "frozen before persisting")
+		fz.hitOne.Do(func() { close(fz.hit) })
+		<-ctx.Done()
+		return context.Cause(ctx)
+	}
+	err := do()
+	if fz != nil && fz.call == n && fz.after {
+		logOut(err, "persisted-then-frozen")
+		log.add(e2Ev{K: e2kFreeze, Sub: what, H: h, R: r, ID: n, Note: "after-persist"})
+		fz.hitOne.Do(func() { close(fz.hit) })
+		<-ctx.Done()
+		return context.Cause(ctx)
+	}
+	logOut(err, "")
+	return err
+}
+
+var errFrozen = fmt.Errorf("frozen before persisting")
+
 type e2AStore struct {
 	log   *e2Log
 	inner *tmmemstore.ActionStore
+	ctl   *e2WriteCtl
 
 	saves atomic.Int64
 	fz    *e2Freeze
@@ -323,6 +362,11 @@ func (s *e2AStore) save(ctx context.Context, sub string, h uint64, r uint32, has
 		<-ctx.Done()
 		s.log.add(e2Ev{K: e2kASaveOut, Sub: sub, H: h, R: r, Hash: hash, Sig: sig, ID: n, Err: "frozen before persisting"})
 		return context.Cause(ctx)
+	}
+	if s.ctl != nil {
+		return s.ctl.around(ctx, s.log, "astore-"+sub, h, r, do, func(err error, note string) {
+			s.log.add(e2Ev{K: e2kASaveOut, Sub: sub, H: h, R: r, Hash: hash, Sig: sig, ID: n, OK: err == nil, Err: e2err(err), Note: note})
+		})
 	}
 	err := do()
 	if fz := s.fz; fz != nil && fz.call == n && fz.after {
@@ -364,13 +408,22 @@ func (s *e2AStore) LoadActions(ctx context.Context, h uint64, r uint32) (tmstore
 type e2FStore struct {
 	log   *e2Log
 	inner *tmmemstore.FinalizationStore
+	ctl   *e2WriteCtl
+}
+
+// e2FinContent is the comparable content of one finalization.
+func e2FinContent(r uint32, blockHash string, vs tmconsensus.ValidatorSet, app string) string {
+	return fmt.Sprintf("round=%d block=%x app=%x vals=%x/%x", r, blockHash, app, vs.PubKeyHash, vs.VotePowerHash)
 }
 
 func (s *e2FStore) SaveFinalization(ctx context.Context, h uint64, r uint32, blockHash string, vs tmconsensus.ValidatorSet, app string) error {
-	s.log.add(e2Ev{K: e2kFSaveIn, H: h, R: r, Hash: blockHash})
-	err := s.inner.SaveFinalization(ctx, h, r, blockHash, vs, app)
-	s.log.add(e2Ev{K: e2kFSaveOut, H: h, R: r, Hash: blockHash, OK: err == nil, Err: e2err(err)})
-	return err
+	content := e2FinContent(r, blockHash, vs, app)
+	s.log.add(e2Ev{K: e2kFSaveIn, H: h, R: r, Hash: blockHash, Content: content})
+	return s.ctl.around(ctx, s.log, "fstore", h, r, func() error {
+		return s.inner.SaveFinalization(ctx, h, r, blockHash, vs, app)
+	}, func(err error, note string) {
+		s.log.add(e2Ev{K: e2kFSaveOut, H: h, R: r, Hash: blockHash, Content: content, OK: err == nil, Err: e2err(err), Note: note})
+	})
 }
 
 func (s *e2FStore) LoadFinalizationByHeight(ctx context.Context, h uint64) (uint32, string, tmconsensus.ValidatorSet, string, error) {
@@ -380,12 +433,15 @@ func (s *e2FStore) LoadFinalizationByHeight(ctx context.Context, h uint64) (uint
 type e2SMStore struct {
 	log   *e2Log
 	inner *tmmemstore.StateMachineStore
+	ctl   *e2WriteCtl
 }
 
 func (s *e2SMStore) SetStateMachineHeightRound(ctx context.Context, h uint64, r uint32) error {
-	err := s.inner.SetStateMachineHeightRound(ctx, h, r)
-	s.log.add(e2Ev{K: e2kSMSet, H: h, R: r, OK: err == nil, Err: e2err(err)})
-	return err
+	return s.ctl.around(ctx, s.log, "smstore", h, r, func() error {
+		return s.inner.SetStateMachineHeightRound(ctx, h, r)
+	}, func(err error, note string) {
+		s.log.add(e2Ev{K: e2kSMSet, H: h, R: r, OK: err == nil, Err: e2err(err), Note: note})
+	})
 }
 
 func (s *e2SMStore) StateMachineHeightRound(ctx context.Context) (uint64, uint32, error) {
